@@ -74,6 +74,7 @@ type jg struct {
 	fns       []*fctx
 	sc        *scope
 	fileSc    *scope // the program's own top-level scope
+	fnSc      []*scope // outermost scope of each enclosing function body
 	uniq      int
 	budget    int // remaining statements
 	exotic    bool
@@ -708,11 +709,20 @@ func (g *jg) logOf(v *vr) string {
 	return "log(\"" + v.name + "\"," + g.sp() + g.ref(v) + ");"
 }
 
+func (g *jg) atFunctionTop() bool {
+	if len(g.fnSc) == 0 {
+		return g.sc == g.fileSc
+	}
+	return g.sc == g.fnSc[len(g.fnSc)-1]
+}
+
 func (g *jg) declKw() string {
 	kw := g.from([]string{"let", "const", "var", "let", "const"}, "kw")
-	// a var inside a top-level block is a file-scope binding; that shape is
-	// kept to the exotic class
-	if kw == "var" && g.fn().top && g.sc != g.fileSc && !g.exotic {
+	// var is function-scoped: inside a nested block it would stay visible
+	// (possibly unassigned) after the block, which the scope model here does
+	// not follow. So var is only used directly in a function body or at file
+	// scope; "var inside a top-level block" has its own statement kind.
+	if kw == "var" && !g.atFunctionTop() {
 		kw = "let"
 	}
 	return kw
@@ -762,7 +772,7 @@ func (g *jg) stmt(sb *strings.Builder, d int, inLoop bool) {
 		w(g.logOf(v))
 	case k < 32: // several declarators in one statement
 		kw := g.from([]string{"let", "var"}, "mkw")
-		if kw == "var" && g.fn().top && g.sc != g.fileSc && !g.exotic {
+		if kw == "var" && !g.atFunctionTop() {
 			kw = "let"
 		}
 		e1, e2 := g.exprN(1), g.exprS(1)
@@ -777,6 +787,7 @@ func (g *jg) stmt(sb *strings.Builder, d int, inLoop bool) {
 			return
 		}
 		o := os[g.pick(len(os), "dso")]
+		srcRef := g.ref(o) // before any new name is chosen: "let {x} = x" would hit the TDZ
 		kw := g.declKw()
 		var parts, logs []string
 		f := g.fn()
@@ -802,10 +813,12 @@ func (g *jg) stmt(sb *strings.Builder, d int, inLoop bool) {
 				parts = append(parts, key+":"+g.sp()+v.name)
 				logs = append(logs, v.name)
 			case kk < 90: // {key = default}
+				// the default is drawn first: it may refer to an outer
+				// variable called key, which then rules the name out
+				dflt := g.exprOf(o.ktyp[key], 0)
 				if f.used[key] || f.declared[key] || (f.top && hostNames[key]) || key == "log" {
 					continue
 				}
-				dflt := g.exprOf(o.ktyp[key], 0)
 				v := g.declare(&vr{name: key, typ: o.ktyp[key], mut: kw != "const"}, kw)
 				g.note("prop", key)
 				g.note("destructure-default", key)
@@ -819,8 +832,8 @@ func (g *jg) stmt(sb *strings.Builder, d int, inLoop bool) {
 		// a key the object does not have, with a default
 		if g.chance(30, "dmissing") {
 			key := g.from(namePool, "dmk")
+			dflt := g.exprN(0)
 			if _, has := o.ktyp[key]; !has && !f.used[key] && !f.declared[key] && !(f.top && hostNames[key]) && key != "log" {
-				dflt := g.exprN(0)
 				v := g.declare(&vr{name: key, typ: tN, mut: kw != "const"}, kw)
 				g.note("prop", key)
 				g.note("destructure-default", key)
@@ -837,10 +850,10 @@ func (g *jg) stmt(sb *strings.Builder, d int, inLoop bool) {
 			logs = append(logs, v.name)
 		}
 		if len(parts) == 0 {
-			w("log(" + g.ref(o) + ");")
+			w("log(" + srcRef + ");")
 			return
 		}
-		w(kw + " {" + g.sp() + strings.Join(parts, ","+g.sp()) + g.sp() + "} = " + g.ref(o) + ";")
+		w(kw + " {" + g.sp() + strings.Join(parts, ","+g.sp()) + g.sp() + "} = " + srcRef + ";")
 		w("log(" + strings.Join(logs, ", ") + ");")
 	case k < 44: // array destructuring
 		as := g.visible(tA, false)
@@ -849,6 +862,7 @@ func (g *jg) stmt(sb *strings.Builder, d int, inLoop bool) {
 			return
 		}
 		a := as[g.pick(len(as), "dsa")]
+		srcRef := g.ref(a)
 		kw := g.declKw()
 		v1 := g.declare(&vr{name: g.fresh("nm"), typ: tN, mut: kw != "const"}, kw)
 		v2 := g.declare(&vr{name: g.fresh("nm"), typ: tN, mut: kw != "const"}, kw)
@@ -859,7 +873,7 @@ func (g *jg) stmt(sb *strings.Builder, d int, inLoop bool) {
 			pat += ", ..." + v3.name
 			logs += ", " + v3.name
 		}
-		w(kw + " [" + pat + "] = " + g.ref(a) + ";")
+		w(kw + " [" + pat + "] = " + srcRef + ";")
 		w("log(" + logs + ");")
 	case k < 52: // if / else
 		c := g.exprB(2)
@@ -881,10 +895,7 @@ func (g *jg) stmt(sb *strings.Builder, d int, inLoop bool) {
 		acc := g.declare(&vr{name: g.fresh("acc"), typ: tN, mut: true}, "let")
 		w("let " + acc.name + " = 0;")
 		g.push()
-		kw := g.from([]string{"let", "var"}, "forkw")
-		if top && kw == "var" {
-			kw = "let"
-		}
+		kw := "let"
 		iv := g.declare(&vr{name: g.fresh("iv"), typ: tN}, kw)
 		w("for (" + kw + " " + iv.name + " = 0; " + iv.name + " < " + g.from([]string{"2", "3", "4"}, "forn") + "; " + iv.name + "++) {")
 		w("  " + acc.name + " += " + g.exprN(1) + ";")
@@ -922,7 +933,8 @@ func (g *jg) stmt(sb *strings.Builder, d int, inLoop bool) {
 			g.pop()
 		}
 	case k < 66: // while / do-while with a counter
-		c := g.declare(&vr{name: g.fresh("ctr"), typ: tN, mut: true}, "let")
+		// the body must not assign to the counter (mut false), or the loop may never end
+		c := g.declare(&vr{name: g.fresh("ctr"), typ: tN}, "let")
 		w("let " + c.name + " = 0;")
 		if g.chance(50, "dowhile") {
 			w("do {")
@@ -975,7 +987,9 @@ func (g *jg) stmt(sb *strings.Builder, d int, inLoop bool) {
 		}
 		g.fns = append(g.fns, &fctx{used: map[string]bool{}, declared: map[string]bool{}})
 		g.push()
+		g.fnSc = append(g.fnSc, g.sc)
 		g.blockBody(sb, d-1, false)
+		g.fnSc = g.fnSc[:len(g.fnSc)-1]
 		g.pop()
 		g.fns = g.fns[:len(g.fns)-1]
 		w("})();")
@@ -1156,12 +1170,14 @@ func (g *jg) function(sb *strings.Builder, d int, _ string) {
 	outerFns := g.fns
 	g.fns = append(g.fns, inner)
 	g.push()
+	g.fnSc = append(g.fnSc, g.sc)
 	for _, pv := range pvars {
 		g.sc.vars = append(g.sc.vars, pv)
 	}
 	g.blockBody(sb, d, false)
 	retE := g.exprOf(ret, 2)
 	sb.WriteString(ind + "  return " + retE + ";\n")
+	g.fnSc = g.fnSc[:len(g.fnSc)-1]
 	g.pop()
 	g.fns = outerFns
 	// names the body referenced must not be declared later by the enclosing
